@@ -174,6 +174,8 @@ def units_for(tier: str) -> List[Any]:
     for p in list(programs.with_actions(list(programs.linear_programs(1, ('S', 'Y1'), (), ('ret',))), ('out',))):
         units.append((p, ('output_emitted', 1, ('kill', 't1'))))
     # terminated from outside (a scheduled callback that raises) while an async step awaits a gate of its own
+    # an exception object that is falsy is the original exception all the same
+    units += [(p, None) for p in programs.linear_programs(2, ('S', 'Y1'), ('cont', 'wait'), ('raise0',))]
     gated = list(programs.linear_programs(2, ('G',), ('cont', 'wait'), ('ret', 'raise')))
     units += [(p, None) for p in programs.with_actions(gated, ('cs_raise',), wheres=('pre',))]
     # programs that finish without a required output (FINISHED is entered through the failed output validation)
